@@ -277,6 +277,21 @@ func TestC05Rapid(t *testing.T) {
 				c.Args = append(c.Args, &xast.Call{Name: "replace", Args: []xast.Expr{&xast.Str{S: "abab"}, &xast.Str{S: pat}, &xast.Str{S: "-"}}})
 			}
 			e = c
+		case 3:
+			// a pattern that is not a constant and varies from node to node within one evaluation
+			subj := xast.Expr(&xast.Call{Name: "name"})
+			if rapid.Bool().Draw(rt, "subjattr") {
+				subj = &xast.Call{Name: "string", Args: []xast.Expr{&xast.Path{Steps: []interface{}{&xast.Step{Axis: "attribute", Test: xast.NodeTest{Kind: "name", Local: "y"}, Abbr: true}}}}}
+			}
+			pat := &xast.Call{Name: "string", Args: []xast.Expr{&xast.Path{Steps: []interface{}{&xast.Step{Axis: "attribute", Test: xast.NodeTest{Kind: "name", Local: "x"}, Abbr: true}}}}}
+			m := &xast.Call{Name: "matches", Args: []xast.Expr{subj, pat}}
+			pth := &xast.Path{Abs: true, Steps: []interface{}{xast.DSlash{}, &xast.Step{Axis: "child", Test: xast.NodeTest{Kind: "wild"}, Abbr: true, Preds: []xast.Expr{
+				&xast.Path{Steps: []interface{}{&xast.Step{Axis: "attribute", Test: xast.NodeTest{Kind: "name", Local: "x"}, Abbr: true}}}, m}}}}
+			if rapid.Bool().Draw(rt, "countit") {
+				e = &xast.Call{Name: "count", Args: []xast.Expr{pth}}
+			} else {
+				e, nodeSet = pth, true
+			}
 		case 0:
 			// regex functions through the shared pattern cache
 			arg := xast.Expr(g.FlatPath(nil))
